@@ -22,6 +22,7 @@ import HtmlVerif.Lemmas.SrcC11
 import HtmlVerif.Props.SrcAttrs
 import HtmlVerif.Props.SrcC09
 import HtmlVerif.Props.SrcC10
+import HtmlVerif.Props.SrcRenderC11
 
 set_option linter.unusedVariables false
 set_option linter.unusedSimpArgs false
@@ -517,9 +518,6 @@ theorem src_hoist_head_contentC11 (h : HTMLDocument_hoist_head_contentC11_availa
 
 /-! ### `_gen_html_tag_tree` with `_hoist_head_content`: the hypotheses discharged from the ties of the other areas -/
 
-/-- the globals of the C11 tie: the tables of `cfg`, and `HTMLDependency.as_html_tags` (not translated) answering `f` -/
-def globalsC11 (cfg : Cfg) (f : PVal → PVal → PVal → PyM PVal) : Globals := { globalsOf cfg with asHtmlTagsC11 := f }
-
 /-- `TagAttrDict.update` does not consult `asHtmlTagsC11`: its tie (`src_update`) holds for the globals of this file -/
 theorem updateTie_ofC11 (h : TagAttrDict_update_available = true) (h1 : normalize_attr_value_available = true)
     (h2 : normalize_attr_name_available = true) (h3 : html_escape_available = true)
@@ -617,6 +615,224 @@ theorem src_gen_html_tag_tree_nowC11 (h : HTMLDocument_gen_html_tag_treeC11_avai
   src_gen_html_tag_tree_fullC11 h hh hins hext happ hi hc ht1 ht2 hd1 hd2 hr (globalsC11 cfgNow f) cfgNow
     (updateTie_ofC11 hu hu1 hu2 hu3 hu4 hu5 hu6 cfgNow src_tables_ok.2.2 src_tables_ok.1 src_tables_ok.2.1 f)
     tvSpec tvSpec_ok content kw hkw lp iv fuel hf hfx hA
+
+/-! ### `Tag.render`, `HTMLDocument.render`, `HTMLDocument.__init__`, `HTMLDocument.append` -/
+
+def kDepsC11 : Str := ['d', 'e', 'p', 'e', 'n', 'd', 'e', 'n', 'c', 'i', 'e', 's']
+def kHtmlC11 : Str := ['h', 't', 'm', 'l']
+
+/-- the dict `render()` returns -/
+def renderedObjC11 (deps : List PVal) (html : Str) : PVal :=
+  .dict [(kDepsC11, .list deps), (kHtmlC11, .str html)]
+
+/-- `Tag.render()` as the source has it: `cp = self.tagify()`, `cp.get_dependencies()`, `cp.get_html_string()`; the ties of the
+    three callees on this tree are hypotheses (`src_tagify_tag`, `src_get_dependencies_tag`, `src_render_tagC11`) -/
+theorem src_Tag_renderC11 (h : Tag_renderC11_available = true) (G : Globals) (cfg : Cfg) (tv : Node → PVal) (fuel : Nat)
+    (t : Node) (htag : t.isTag = true)
+    (hT : Tag_tagify G fuel (embT tv t) = .ok (embT tv (tagifyTag t)))
+    (hD : Tag_get_dependencies G fuel (embT tv (tagifyTag t)) (.bool true)
+            = .ok (.list (((tagifyTag t).getDeps true).map (embT tv))))
+    (hR : Tag_get_html_string G fuel (embT tv (tagifyTag t)) (.int 0) (.str ['\n'])
+            = embRes PVal.str (renderTagChecked cfg (tagifyTag t) 0 ['\n'])) :
+    Tag_renderC11 G (fuel + 1) (embT tv t)
+      = match renderTagChecked cfg (tagifyTag t) 0 ['\n'] with
+        | .error e => .error (embErr e)
+        | .ok s => .ok (renderedObjC11 (((tagifyTag t).getDeps true).map (embT tv)) s) := by
+  first
+  | exact absurd h (by decide)
+  | skip
+  all_goals (
+    rw [Tag_renderC11]
+    have hc1 := classOf_embT_tagC11 tv t htag
+    have htag' : (tagifyTag t).isTag = true := by cases t <;> simp [Node.isTag] at htag; rfl
+    have hc2 := classOf_embT_tagC11 tv (tagifyTag t) htag'
+    simp only [pure_eq_ok, ok_bind, hc1, hT, hc2, hD, hR]
+    cases renderTagChecked cfg (tagifyTag t) 0 ['\n'] <;> rfl)
+
+/-- `HTMLDocument.render(lib_prefix=…, include_version=…)` as the source has it = `docRender`: the tree of
+    `_gen_html_tag_tree`, rendered by `Tag.render`, with `"<!DOCTYPE html>\n"` put before the markup in the returned dict.
+    `hG`: the tie of `_gen_html_tag_tree` on this document (`src_gen_html_tag_tree_fullC11`); `hTR`: the tie of `Tag.render`
+    on the tree it returns (`src_Tag_renderC11`). -/
+theorem src_HTMLDocument_renderC11 (h : HTMLDocument_renderC11_available = true) (G : Globals) (cfg : Cfg) (tv : Node → PVal)
+    (fuel : Nat) (doc lpv ivv : PVal) (content : Nodes) (kw : List (Str × AttrArg)) (lp : Option Str) (iv : Bool)
+    (hG : HTMLDocument_gen_html_tag_treeC11 G fuel doc lpv ivv
+            = embRes (fun p => embT tv p.1) (Doc.genHtmlTagTree cfg content kw lp iv))
+    (hTR : ∀ t after, Doc.genHtmlTagTree cfg content kw lp iv = .ok (t, after) →
+      t.isTag = true ∧ Tag_renderC11 G fuel (embT tv t)
+        = match renderTagChecked cfg (tagifyTag t) 0 ['\n'] with
+          | .error e => .error (embErr e)
+          | .ok s => .ok (renderedObjC11 (((tagifyTag t).getDeps true).map (embT tv)) s)) :
+    HTMLDocument_renderC11 G (fuel + 1) doc lpv ivv
+      = match Doc.docRender cfg content kw lp iv with
+        | .error e => .error (embErr e)
+        | .ok r => .ok (renderedObjC11 (r.deps.map (embT tv)) r.html) := by
+  first
+  | exact absurd h (by decide)
+  | skip
+  all_goals (
+    rw [HTMLDocument_renderC11]
+    simp only [pure_eq_ok, ok_bind, hG, Doc.docRender]
+    cases hg : Doc.genHtmlTagTree cfg content kw lp iv with
+    | error e => rfl
+    | ok p =>
+      obtain ⟨t, after⟩ := p
+      obtain ⟨htag, hr⟩ := hTR t after hg
+      have hcls := classOf_embT_tagC11 tv t htag
+      simp only [embRes, ok_bind, hcls, hr]
+      cases renderTagChecked cfg (tagifyTag t) 0 ['\n'] with
+      | error e => rfl
+      | ok s =>
+        simp [renderedObjC11, kDepsC11, kHtmlC11, pyGetItemU, userListData?, pyGetItem, Py.dictGet?, pyAdd_str, pySetItem, Py.dictSet,
+          Doc.doctype])
+
+/-! ### `HTMLDocument.__init__`, `HTMLDocument.append` (on already-normalised children) -/
+
+theorem TagList_init_kidsC11 (h : TagList_init_available = true) (ht : tagchilds_to_tagnodes_available = true)
+    (hf' : util_flatten_available = true) (hr' : util_flatten_recurse_available = true) (hn : is_tag_node_available = true)
+    (G : Globals) (fuel : Nat) (xs : List PVal) (hp : ∀ x ∈ xs, (kidItemsC11 x).isSome = true) :
+    TagList_init G (fuel + 5) (.obj "TagList" []) (.tuple xs) = .ok (tagListOf (xs.flatMap kidFlatC11)) := by
+  first
+  | exact absurd h (by decide)
+  | rw [TagList_init]
+    simp only [pure_eq_ok, tagchilds_kidsC11 ht hf' hr' hn G fuel (.tuple xs) xs rfl (by simp [isInstance, builtinClasses]) hp,
+      ok_bind, userListInit_new, tagListOf]
+
+/-- `HTMLDocument(*args, **kwargs)` = `docInit`: `_content` is the TagList of the arguments, `_html_attr_args` the keyword dict.
+    `_partial`: for arguments that are already normalised children (see `src_Tag_insertC11_partial`). -/
+theorem src_HTMLDocument_initC11_partial (h : HTMLDocument_initC11_available = true) (hti : TagList_init_available = true)
+    (hc : CalleesC11) (G : Globals) (fuel : Nat) (args : List PVal) (kw : PVal)
+    (hp : ∀ x ∈ args, (kidItemsC11 x).isSome = true) :
+    HTMLDocument_initC11 G (fuel + 6) (.obj "HTMLDocument" []) (.tuple args) kw
+      = .ok (docObjC11 (args.flatMap kidFlatC11) kw) := by
+  first
+  | exact absurd h (by decide)
+  | rw [HTMLDocument_initC11]
+    simp only [pure_eq_ok, pyIter_tuple, ok_bind,
+      TagList_init_kidsC11 hti hc.tagchilds hc.flatten hc.recurse hc.isnode G fuel args hp]
+    simp [pySetAttr, fieldSet, docObjC11]
+
+/-- `doc.append(*args)` = `docAppend` (`self._content.append(*args)`; no argument at all is a TypeError).  `_partial`: as above. -/
+theorem src_HTMLDocument_appendC11_partial (h : HTMLDocument_appendC11_available = true) (hc : CalleesC11) (G : Globals)
+    (fuel : Nat) (content : List PVal) (kw : PVal) (args : List PVal) (hp : ∀ x ∈ args, (kidItemsC11 x).isSome = true) :
+    HTMLDocument_appendC11 G (fuel + 7) (docObjC11 content kw) (.tuple args)
+      = if args.isEmpty then .error .typeError else .ok (docObjC11 (content ++ args.flatMap kidFlatC11) kw) := by
+  first
+  | exact absurd h (by decide)
+  | rw [HTMLDocument_appendC11]
+    have hg : pyGetAttr (docObjC11 content kw) "_content" = .ok (tagListOf content) := by
+      simp [docObjC11, pyGetAttr, fieldGet?]
+    cases args with
+    | nil => simp [hg, recv_taglistC11, pyStarSplit1C11]
+    | cons x rest =>
+      have hsp : pyStarSplit1C11 (.tuple (x :: rest)) = .ok (x, .tuple rest) := rfl
+      simp only [pure_eq_ok, ok_bind, hg, recv_taglistC11, hsp,
+        TagList_append_kidsC11 hc.append hc.extend hc.tagchilds hc.flatten hc.recurse hc.isnode G fuel content x rest hp,
+        List.isEmpty_cons, Bool.false_eq_true, if_false]
+      simp [pySetAttr, fieldSet, docObjC11]
+
+theorem hoist_isTagC11 (cfg : Cfg) (x : Node) (lp : Option Str) (iv : Bool) (t : Node)
+    (h : Doc.hoist cfg x lp iv = .ok t) : t.isTag = true := by
+  cases x with
+  | tag n w a kids =>
+    simp only [Doc.hoist] at h
+    split at h
+    · simp at h
+    · split at h
+      · simp at h
+      · simp at h; rw [← h]; rfl
+  | _ => simp [Doc.hoist] at h
+
+theorem genHtmlTagTree_isTagC11 (cfg : Cfg) (content : Nodes) (kw : List (Str × AttrArg)) (lp : Option Str) (iv : Bool)
+    (t : Node) (after : Nodes) (h : Doc.genHtmlTagTree cfg content kw lp iv = .ok (t, after)) : t.isTag = true := by
+  unfold Doc.genHtmlTagTree at h
+  cases hg : Doc.genTree cfg content kw with
+  | error e => rw [hg] at h; simp at h
+  | ok p =>
+    obtain ⟨x, c⟩ := p
+    rw [hg] at h
+    simp only at h
+    cases hh : Doc.hoist cfg x lp iv with
+    | error e => rw [hh] at h; simp at h
+    | ok t' =>
+      rw [hh] at h
+      simp at h
+      rw [← h.1]
+      exact hoist_isTagC11 cfg x lp iv t' hh
+
+/-- `HTMLDocument.render` with every hypothesis discharged from the ties of the functions it reaches: for every stored content,
+    keyword arguments that do not collide with parameter names, `lib_prefix` None or a string, any sufficient fuel, the answers
+    `af` of the untranslated `as_html_tags` agreeing with the model's `depTags` on the resolved dependencies of the tree. -/
+theorem src_HTMLDocument_render_fullC11 (h : HTMLDocument_renderC11_available = true) (htr : Tag_renderC11_available = true)
+    (hg : HTMLDocument_gen_html_tag_treeC11_available = true) (hh : HTMLDocument_hoist_head_contentC11_available = true)
+    (hins : Tag_insertC11_available = true) (hext : Tag_extendC11_available = true) (happ : Tag_appendC11_available = true)
+    (hi : TagAttrDict_initC11_available = true) (hc : CalleesC11)
+    (ht1 : Tag_tagify_available = true) (ht2 : TagList_tagify_available = true)
+    (hd1 : Tag_get_dependencies_available = true) (hd2 : TagList_get_dependencies_available = true)
+    (hr : resolve_dependencies_available = true)
+    (hu : TagAttrDict_update_available = true) (hu1 : normalize_attr_value_available = true)
+    (hu2 : normalize_attr_name_available = true) (hu3 : html_escape_available = true)
+    (hu4 : HTML_add_available = true) (hu5 : HTML_radd_available = true) (hu6 : HTML_as_string_available = true)
+    (hs1 : Tag_get_html_string_available = true) (hs2 : TagList_get_html_string_available = true)
+    (hnt : normalize_text_available = true)
+    (cfg : Cfg) (hsp : escText cfg [' '] = [' ']) (hkt : keysPlain cfg.textTbl = true) (hka : keysPlain cfg.attrTbl = true)
+    (af : PVal → PVal → PVal → PyM PVal) (tv : Node → PVal) (htv : TvOk tv)
+    (content : Nodes) (kw : List (Str × AttrArg)) (hkw : kwAvoidsC11 reservedKw kw = true) (lp : Option Str) (iv : Bool)
+    (fuel : Nat) (hf : 2 * kidsDepth content + 4 ≤ fuel)
+    (hfx : ∀ x after, Doc.genTree cfg content kw = .ok (x, after) → 2 * nodeDepth x + 9 ≤ fuel)
+    (hfr : ∀ t after, Doc.genHtmlTagTree cfg content kw lp iv = .ok (t, after) →
+      2 * nodeDepth t + 1 ≤ fuel ∧ 2 * nodeDepth (tagifyTag t) + 1 ≤ fuel)
+    (hA : ∀ x after, Doc.genTree cfg content kw = .ok (x, after) → ∀ d ∈ x.getDeps true,
+      af (embT tv d) (embLpC11 lp) (.bool iv) = embRes (fun ns => tagListOf (embTs tv ns)) (Doc.depTags cfg lp iv d)) :
+    HTMLDocument_renderC11 (globalsC11 cfg af) (fuel + 1) (docObjC11 (embTs tv content) (embArgDict kw)) (embLpC11 lp) (.bool iv)
+      = match Doc.docRender cfg content kw lp iv with
+        | .error e => .error (embErr e)
+        | .ok r => .ok (renderedObjC11 (r.deps.map (embT tv)) r.html) := by
+  have hU := updateTie_ofC11 hu hu1 hu2 hu3 hu4 hu5 hu6 cfg hsp hkt hka af
+  have hG := src_gen_html_tag_tree_fullC11 hg hh hins hext happ hi hc ht1 ht2 hd1 hd2 hr (globalsC11 cfg af) cfg hU tv htv
+    content kw hkw lp iv fuel hf hfx hA
+  refine src_HTMLDocument_renderC11 h (globalsC11 cfg af) cfg tv fuel _ _ _ content kw lp iv hG ?_
+  intro t after hgt
+  have htag := genHtmlTagTree_isTagC11 cfg content kw lp iv t after hgt
+  obtain ⟨hf1, hf2⟩ := hfr t after hgt
+  obtain ⟨f, rfl⟩ : ∃ f, fuel = f + 1 := ⟨fuel - 1, by omega⟩
+  have htag' : (tagifyTag t).isTag = true := by cases t <;> simp [Node.isTag] at htag; rfl
+  refine ⟨htag, src_Tag_renderC11 htr (globalsC11 cfg af) cfg tv f t htag
+    (src_tagify_tag ht1 ht2 _ tv htv t htag f (by omega))
+    (src_get_dependencies_tag hd1 hd2 hr _ tv (tagifyTag t) htag' f (by omega) true) ?_⟩
+  have hren := src_render_tagC11 hs1 hs2 hnt hu3 hu6 cfg af tv hkt hka (tagifyTag t) htag' f (by omega) 0 ['\n']
+  rw [show ((0 : Nat) : Int) = 0 from rfl] at hren
+  rw [hren]
+  unfold renderTagChecked
+  cases (tagifyTag t).hasTobj <;> rfl
+/-- the same for the tables as they are in the source right now, `tagify()` of foreign objects answering what the model says -/
+theorem src_HTMLDocument_render_nowC11 (h : HTMLDocument_renderC11_available = true) (htr : Tag_renderC11_available = true)
+    (hg : HTMLDocument_gen_html_tag_treeC11_available = true) (hh : HTMLDocument_hoist_head_contentC11_available = true)
+    (hins : Tag_insertC11_available = true) (hext : Tag_extendC11_available = true) (happ : Tag_appendC11_available = true)
+    (hi : TagAttrDict_initC11_available = true) (hc : CalleesC11)
+    (ht1 : Tag_tagify_available = true) (ht2 : TagList_tagify_available = true)
+    (hd1 : Tag_get_dependencies_available = true) (hd2 : TagList_get_dependencies_available = true)
+    (hr : resolve_dependencies_available = true)
+    (hu : TagAttrDict_update_available = true) (hu1 : normalize_attr_value_available = true)
+    (hu2 : normalize_attr_name_available = true) (hu3 : html_escape_available = true)
+    (hu4 : HTML_add_available = true) (hu5 : HTML_radd_available = true) (hu6 : HTML_as_string_available = true)
+    (hs1 : Tag_get_html_string_available = true) (hs2 : TagList_get_html_string_available = true)
+    (hnt : normalize_text_available = true)
+    (af : PVal → PVal → PVal → PyM PVal)
+    (content : Nodes) (kw : List (Str × AttrArg)) (hkw : kwAvoidsC11 reservedKw kw = true) (lp : Option Str) (iv : Bool)
+    (fuel : Nat) (hf : 2 * kidsDepth content + 4 ≤ fuel)
+    (hfx : ∀ x after, Doc.genTree cfgNow content kw = .ok (x, after) → 2 * nodeDepth x + 9 ≤ fuel)
+    (hfr : ∀ t after, Doc.genHtmlTagTree cfgNow content kw lp iv = .ok (t, after) →
+      2 * nodeDepth t + 1 ≤ fuel ∧ 2 * nodeDepth (tagifyTag t) + 1 ≤ fuel)
+    (hA : ∀ x after, Doc.genTree cfgNow content kw = .ok (x, after) → ∀ d ∈ x.getDeps true,
+      af (embT tvSpec d) (embLpC11 lp) (.bool iv)
+        = embRes (fun ns => tagListOf (embTs tvSpec ns)) (Doc.depTags cfgNow lp iv d)) :
+    HTMLDocument_renderC11 (globalsC11 cfgNow af) (fuel + 1) (docObjC11 (embTs tvSpec content) (embArgDict kw))
+        (embLpC11 lp) (.bool iv)
+      = match Doc.docRender cfgNow content kw lp iv with
+        | .error e => .error (embErr e)
+        | .ok r => .ok (renderedObjC11 (r.deps.map (embT tvSpec)) r.html) :=
+  src_HTMLDocument_render_fullC11 h htr hg hh hins hext happ hi hc ht1 ht2 hd1 hd2 hr hu hu1 hu2 hu3 hu4 hu5 hu6 hs1 hs2 hnt
+    cfgNow src_tables_ok.2.2 src_tables_ok.1 src_tables_ok.2.1 af tvSpec tvSpec_ok content kw hkw lp iv fuel hf hfx hfr hA
 
 /-- the guard on the keyword arguments is satisfiable by a non-trivial instance, and excludes the parameter names -/
 example : kwAvoidsC11 reservedKw [("lang".toList, .str "en".toList), ("class_".toList, .html "a".toList)] = true := by decide
